@@ -198,6 +198,17 @@ def callersOk (rows : List (String × String × String)) : Bool :=
   rows.all fun (file, prim, mod) =>
     mod == primitiveHome prim || (file == "direct/utils/bbox.py" && mod == "direct.utils.bbox")
 
+/-- the call edges the model relies on: `complex_center_crop` / `complex_random_crop` build a bounding box and hand every
+tensor of the list to `crop_to_bbox` (so `bbox_correct` and the driver's `opCCC` / `opRandomCrop` speak about them),
+`crop_to_largest` likewise, `CropKspace` crops with the two complex crops, `PadKspace` pads with `pad_tensor`. -/
+def edgesRequired : List (String × String) :=
+  [("complex_center_crop", "crop_to_bbox"), ("complex_random_crop", "crop_to_bbox"), ("crop_to_largest", "crop_to_bbox"),
+   ("CropKspace", "complex_center_crop"), ("CropKspace", "complex_random_crop"), ("PadKspace", "pad_tensor")]
+
+/-- every required edge is present (a composite that stops calling its modelled primitive is no longer covered by the
+primitive's theorems) -/
+def edgesOk (rows : List (String × String)) : Bool := edgesRequired.all fun r => rows.contains r
+
 /-- hand-written table = what the translator finds on the current tree (fallback when the source cannot be walked) -/
 def keyAccessModel : List (String × String × String) := keyAllowed
 
